@@ -35,9 +35,9 @@ CHECKS = {
    design="4 C08"),
  "C12": dict(
    category="exploration",
-   text="Inclusion and define-placement slice: generated include graphs on a simulated directory tree (resolution policies, aliases, same name in two directories, #pragma once, guards, cycles, conditional regions spanning files, object-like macros redefined/undefined across files, load faults) are preprocessed by rssl and by an independent ~300-line reference model of textual inclusion that resolves through the same simulated file system; token streams must be equal (refinement), the handler's request history must be justified by the model (no invented request, no silently skipped first request, correct parent name, nothing after an error), and API-level defines must equal #define lines placed before the first line.",
-   note="Not decided here: function-like macro argument splitting, ## semantics and rescanning order are pure token-list functions (a mutant confined to split_macro_args is not seen). The model covers exactly the directive subset the generator emits; plain (flat names) and hostile (aliases, faults) configurations are judged and reported separately.",
-   technique="deterministic simulation: compiler <-> include-handler protocol on a simulated file system, refinement against an executable reference model of textual inclusion",
+   text="Generated include graphs on a simulated directory tree (resolution policies, aliases, same name in two directories, #pragma once anywhere incl. inside conditional regions, guards, cycles, conditional regions spanning files, hundreds of repeated includes, load faults) carrying object-like and function-like macros (0-3 parameters, nested invocations, parenthesised arguments with commas, empty arguments, wrong arity, self reference, redefinition between kinds, #undef across files, the ## paste macro) are preprocessed by rssl and by an independent reference model of textual inclusion + C macro replacement that resolves through the same simulated file system; token streams must be equal (refinement), the handler's request history must be justified by the model (no invented request, no silently skipped first request, correct parent name, nothing after an error), compile() must accept exactly the pasted programs that are valid, and API-level defines must equal #define lines placed before the first line.",
+   note="The model answers 'unmodelled' (counted in evidence, never judged) where C and RSSL are known to differ or C leaves the result open: a replacement that ends in a function-like macro name followed by '(', an argument naming a macro that is being expanded around it, ## with macro-name operands, #elif after #else, stringification. Multi-line invocations and duplicate API-level define names are not generated. Plain (flat names) and hostile (aliases, faults) configurations are judged and reported separately.",
+   technique="deterministic simulation: compiler <-> include-handler protocol on a simulated file system with fault injection, refinement against an executable reference model of textual inclusion and macro replacement",
    design="4 C12"),
  "C14": dict(
    category="fault_enumeration",
